@@ -27,7 +27,7 @@ logging.disable(logging.CRITICAL)
 ENCODED = [admission.build_response, admission.serve_admission_request, registries.WebhooksRegistry.iter_handlers,
            patches.Patch.as_json_patch, patches.Patch._apply_patch, execution.execute_handler_once]
 META = {
-    'bounds': 'H1: <=3 outcomes with symbolic error kind (none/AdmissionError(code symbolic)/Permanent/Temporary/other) and <=2 '
+    'bounds': 'reviewed objects also with explicit nulls (body shapes 6, 7). H1: <=3 outcomes with symbolic error kind (none/AdmissionError(code symbolic)/Permanent/Temporary/other) and <=2 '
               'warnings. H2: one handler with symbolic (id hint, reason hint, handler reason, operation in CREATE/UPDATE/DELETE/CONNECT, '
               'handler operations set, subresource pair, optional field filter with old/new field values in absent|x|y). H3: reviewed object template spec={a: X, keep: 1}, X in '
               'absent|int|str|list|{b:int}|{b:int,c:int}; patch template for spec.a in untouched|null|int|str|list|{b:int}|{b:null}|{d:int}|{}; '
